@@ -283,9 +283,12 @@ def run_case(ctx, seed, k=0):
     m = SchemaGen(rng, adversarial=rng.choice([0.0, 0.3]), deprecated_directives=depdir).model()
     sdl = render_sdl(m)
     case = {"seed": seed, "sdl": sdl}
-    how = rng.choice(['sdl', 'programmatic:literal', 'programmatic:value'])
+    how = rng.choice(['sdl', 'programmatic:literal', 'programmatic:value', 'programmatic:literal:subclassed', 'programmatic:value:subclassed'])
     try:
-        S = build_schema(sdl, experimental_directives_on_directive_definitions=depdir) if how == 'sdl' else build_programmatic(m, how.split(':')[1])
+        S = build_schema(sdl, experimental_directives_on_directive_definitions=depdir) if how == 'sdl' else \
+            build_programmatic(m, how.split(':')[1], subclassed=how.endswith(':subclassed'))
+        if how.endswith(':subclassed'):
+            ctx.count("schemas_made_of_subclassed_type_classes")
     except Exception as e:  # noqa: BLE001
         ctx.violation("construction-fails", {"how": how, "exception": repr(e)[:300]}, case)
         return
